@@ -436,7 +436,6 @@ Proof. rewrite Forall_map. reflexivity. Qed.
 Lemma KInv_ext r r' k : ext r r' -> KInv r k -> KInv r' k.
 Proof. intros X [A B]. split; [eapply MInv_ext; eauto | exact B]. Qed.
 
-Definition dvars (d : mdata) : list var_ := dparams d ++ dreturns d.
 Definition names_nonblank (vs : list var_) : Prop := Forall (fun v => nonblank (vname v)) vs.
 
 Definition method_shape (m : str * sig) (d : mdata) : Prop :=
@@ -720,22 +719,6 @@ Section Guard.
   Variable E : env.
   Variable inp : bool.
 
-  (* what must hold of one reference of the SOURCE type for the bare identifiers / the
-     qualifier to mean in the destination file what they meant in the source file *)
-  Definition ref_guard (qf : str -> str) (r : ref) : bool :=
-    match r with
-    | RefTParam n => negb (smem n (e_shadow E)) && smem n (e_tparams E)
-    | RefObj None n =>
-        negb (smem n (e_shadow E)) && negb (smem n (e_tparams E)) &&
-        negb (smem n (map qualifier (e_imports E))) && negb (smem n (e_local E))
-    | RefObj (Some p) n =>
-        if seqb p (e_dst E) && inp
-        then negb (smem n (e_shadow E)) && negb (smem n (e_tparams E)) &&
-             negb (smem n (map qualifier (e_imports E))) && smem n (e_local E)
-        else negb (is_nil (pkg_name cx p)) &&
-             negb (smem (qf p) (e_shadow E)) && negb (smem (qf p) (e_tparams E)) && negb (smem (qf p) (e_local E))
-    end.
-
   Definition closed_ref (qf : str -> str) (r : ref) : Prop :=
     match r with
     | RefObj (Some p) _ =>
@@ -744,7 +727,7 @@ Section Guard.
     | _ => True
     end.
 
-  Lemma ref_guard_ok qf r : closed_ref qf r -> ref_guard qf r = true -> ref_ok E qf r.
+  Lemma ref_guard_ok qf r : closed_ref qf r -> ref_guard cx E inp qf r = true -> ref_ok E qf r.
   Proof.
     destruct r as [[p|] n|n]; simpl.
     - destruct (seqb p (e_dst E) && inp) eqn:S.
@@ -771,18 +754,11 @@ Section Denote.
   Variable cx : ctx.
   Hypothesis TOK : tables_ok cx.
 
-  Definition file_env (dstp : str) (f : fdata) (local tps sh : list str) : env :=
-    {| e_imports := f_imports f; e_dst := dstp; e_local := local; e_tparams := tps; e_shadow := sh |}.
-
-  (* the scoping side conditions for all references of one variable's type *)
-  Definition var_guard (E : env) (inp : bool) (v : var_) : bool :=
-    forallb (ref_guard cx E inp (qual_of (vimps v))) (refs (vty v)).
-
   Theorem denote dstp inp is local tps sh :
     let f := gen_file cx dstp inp is in
     let E := file_env dstp f local tps sh in
     forall id v, In id (f_ifaces f) -> In v (ivars id) ->
-      var_guard E inp v = true ->
+      var_guard cx E inp v = true ->
       resolve_rty E (vrty v) = Some (norm (vty v)).
   Proof.
     intros f E id v Hid Hv G. apply resolve_render. apply Forall_forall. intros r Hr.
@@ -974,3 +950,20 @@ Section TParams.
     - apply IH. intros y Hy. apply G. now right.
   Qed.
 End TParams.
+
+(* TypeConstraint / TypeInstantiation reproduce the declared names when Exported leaves
+   them unchanged *)
+Theorem typeparams_spec cx r i :
+  let id := snd (gen_iface cx r i) in
+  forallb (fun x => negb (blank (lname (fst x))) && negb (smem (lname (fst x)) (i_tpscope id))) (if_tparams i) = true ->
+  (forall x, In x (if_tparams i) -> cx_exported cx (lname (fst x)) = lname (fst x)) ->
+  type_instantiation cx id = map (fun x => lname (fst x)) (if_tparams i) /\
+  map fst (type_constraint cx id) = map (fun x => lname (fst x)) (if_tparams i) /\
+  map snd (type_constraint cx id) = map vrty (i_tparams id).
+Proof.
+  intros id G EX. pose proof (tparam_names cx r i G) as N. fold id in N.
+  unfold type_instantiation, type_constraint. rewrite !map_map. simpl.
+  assert (H : map (fun v => cx_exported cx (vname v)) (i_tparams id) = map (fun x => lname (fst x)) (if_tparams i)).
+  { rewrite <- (map_map vname (cx_exported cx)), N, map_map. apply map_ext_in. exact EX. }
+  repeat split; auto.
+Qed.
